@@ -142,17 +142,22 @@ pub fn corpus() -> Vec<(String, String)> {
 }
 
 
-/// Confirmed front-end crashes with a fix pending (DESIGN §7 fix rows): (id, probe text).  Each check runs
-/// the probes first, in a child process; while a probe still crashes, crashes at the site it reports (for
-/// D53: process aborts on texts in which a function's name occurs again after its header) are attributed to
-/// that defect, counted, and named in a note instead of being reported one by one.  A probe that no longer
-/// crashes gates nothing: the shape is then part of the main stream like any other.
-pub const GATES: [(&str, &str); 5] = [
-    ("D57", "interface Sp {\n  fn say(self: Self) -> string\n}\nlet s = Sp.say(1)\n"),
-    ("D53", "fn f() { f }\n"),
-    ("D54", "implement ToString for Persn {\n  fn str(self) { \"P\" }\n}\n"),
-    ("D55", "fn g(a = 1!) {}\n"),
-    ("D56", "\ntype MyStatus =\n    | NotGood\n    | ReallyBad\n    | Terrible\n    | Good\n    | PrettyGood\n    | PrettyPrettyPrettyGood\n\nimplement Try for MyStatus {\n    fn branch(self) -> ControlFlow<MyStatus, MyStatus> {\n        mr atch self {\n            .NotGood -> .Break(self)\n            .ReallyBad -> .Break(self)\n            .Terrible -> .Break(self)\n            .Good -> .Continue(self)\n            .PrettyGood -> .Continue(self)\n            .PrettyPrettyPrettyGood -> .Continue(self)\n        }\n    }\n\n    fn from_residual(r: MyStatus) -> MyStatus {\n        r\n    }\n}\n\nfn test_early_exit() -> MyStatus {\n  MyStatus.Good?\n  MyStatus.PrettyGood?\n  MyStatus.PrettyPrettyPrettyGood?\n\n  // early exit happens here!\n  MyStatus.ReallyBad?\n\n  // return good status if we made it to the end (which we don't)\n  MyStatus.Good\n}\n\nmatch test_early_exit() {\n  MyStatus.ReallyBad -> 10,\n  _ -> panic(\"did not work\"),\n}\n"),
+/// Confirmed front-end crashes (DESIGN §7 fix rows): (id, fix still pending, probe text).  Each check runs
+/// the probes first, in a child process.
+/// * pending = true: while the probe still crashes, crashes at the site it reports are attributed to that
+///   defect, counted, and named in a note instead of being reported one by one; once it stops crashing it
+///   gates nothing and the shape is part of the main stream like any other.
+/// * pending = false (the fix has landed): the probe is a regression input — if it crashes again that is a
+///   failing input of the property.
+pub const GATES: [(&str, bool, &str); 8] = [
+    ("F8", true, "let a: array<> = [1]\n"),
+    ("F9", true, "type Pt = { x: int }\nPt\nprintln(1)\n"),
+    ("F10", true, "interface Sp {\n  fn say(self: Self) -> string\n}\nimplement Sp for R {\n  fn say(self) -> string = \"beep\"\n}\nlet s = Sp.say(1)\n"),
+    ("D57", false, "interface Sp {\n  fn say(self: Self) -> string\n}\nlet s = Sp.say(1)\n"),
+    ("D53", false, "fn f() { f }\n"),
+    ("D54", false, "implement ToString for Persn {\n  fn str(self) { \"P\" }\n}\n"),
+    ("D55", false, "fn g(a = 1!) {}\n"),
+    ("D56", false, "\ntype MyStatus =\n    | NotGood\n    | ReallyBad\n    | Terrible\n    | Good\n    | PrettyGood\n    | PrettyPrettyPrettyGood\n\nimplement Try for MyStatus {\n    fn branch(self) -> ControlFlow<MyStatus, MyStatus> {\n        mr atch self {\n            .NotGood -> .Break(self)\n            .ReallyBad -> .Break(self)\n            .Terrible -> .Break(self)\n            .Good -> .Continue(self)\n            .PrettyGood -> .Continue(self)\n            .PrettyPrettyPrettyGood -> .Continue(self)\n        }\n    }\n\n    fn from_residual(r: MyStatus) -> MyStatus {\n        r\n    }\n}\n\nfn test_early_exit() -> MyStatus {\n  MyStatus.Good?\n  MyStatus.PrettyGood?\n  MyStatus.PrettyPrettyPrettyGood?\n\n  // early exit happens here!\n  MyStatus.ReallyBad?\n\n  // return good status if we made it to the end (which we don't)\n  MyStatus.Good\n}\n\nmatch test_early_exit() {\n  MyStatus.ReallyBad -> 10,\n  _ -> panic(\"did not work\"),\n}\n"),
 ];
 
 /// D53's shape: some `fn <name>` whose name occurs again later as a whole word
